@@ -501,4 +501,4 @@ def sources(tier):
         return [Enum("boundary-values", enum_cases(), EXHAUSTIVE["quick"]),
                 Hyp("documents", gen_case(), 600, shards=10)]
     return [Enum("boundary-values", enum_cases(), EXHAUSTIVE["thorough"]),
-            Hyp("documents", gen_case(), 6000, shards=16)]
+            Hyp("documents", gen_case(), 4000, shards=16)]
